@@ -88,16 +88,18 @@ type Model struct {
 	LastIn  *channeltypes.Packet
 	Outs    int
 	Advs    int
+	Toggles int  // governance pauses / resumes of the usdt pair so far
+	Paused  bool // conversions of the usdt pair are switched off
 }
 
 func (m *Model) Clone() explore.Model {
-	c := &Model{InSeq: append([]uint64(nil), m.InSeq...), Flights: append([]flight(nil), m.Flights...), Settled: append([]flight(nil), m.Settled...), LastIn: m.LastIn, Outs: m.Outs, Advs: m.Advs}
+	c := &Model{InSeq: append([]uint64(nil), m.InSeq...), Flights: append([]flight(nil), m.Flights...), Settled: append([]flight(nil), m.Settled...), LastIn: m.LastIn, Outs: m.Outs, Advs: m.Advs, Toggles: m.Toggles, Paused: m.Paused}
 	return c
 }
 
 func (m *Model) Canon() []byte {
 	var b bytes.Buffer
-	fmt.Fprintf(&b, "in=%v|outs=%d|advs=%d|", m.InSeq, m.Outs, m.Advs)
+	fmt.Fprintf(&b, "in=%v|outs=%d|advs=%d|tog=%d/%v|", m.InSeq, m.Outs, m.Advs, m.Toggles, m.Paused)
 	for _, f := range m.Flights {
 		fmt.Fprintf(&b, "F%d/%d/%s/%d;", f.Pair, f.Seq, f.Tok, f.Amt)
 	}
@@ -630,6 +632,15 @@ func (s *Spec) settleOp(idx int, f flight, kind string) explore.Op {
 		if !r.OK() {
 			c.Outcome = "rejected"
 			due := kind != "timeout" || uint64(c.Ctx.BlockTime().UnixNano()) >= f.Pkt.TimeoutTimestamp
+			if m.Paused && f.Tok != "fx" && kind != "ackok" {
+				// the refund cannot be converted back while governance has the pair switched off: refusing the whole
+				// message keeps the packet in flight (it can be delivered again later), provided nothing at all was kept
+				c.Outcome = "rejected-while-paused"
+				if d := userAndRecordDiff(pre, s.snapshot(c.Ctx)); d != "" {
+					c.Violate("refused-settlement-leaves-nothing", sig("refused-"+kind+"-while-paused-had-effect"), name+": "+d)
+				}
+				return
+			}
 			if due {
 				c.Violate("settlement-is-processed", sig("valid-"+kind+"-cannot-be-processed"), fmt.Sprintf("%s for a packet in flight was refused: %s", name, r))
 			}
@@ -655,6 +666,20 @@ func (s *Spec) settleOp(idx int, f flight, kind string) explore.Op {
 		}
 		s.expectOnly(c, name, "refund-differs-from-amount/"+kind+"/"+f.Tok, pre, post, wantBank, wantErc)
 	}}
+}
+
+// userAndRecordDiff describes what differs between two snapshots in user-visible balances and tracking records.
+func userAndRecordDiff(a, b snap) string {
+	if fmt.Sprint(a.rel) != fmt.Sprint(b.rel) {
+		return fmt.Sprintf("tracking records %v -> %v", a.rel, b.rel)
+	}
+	if fmt.Sprint(a.bank) != fmt.Sprint(b.bank) {
+		return fmt.Sprintf("bank balances %v -> %v", a.bank, b.bank)
+	}
+	if fmt.Sprint(a.erc) != fmt.Sprint(b.erc) {
+		return fmt.Sprintf("erc20 balances %v -> %v", a.erc, b.erc)
+	}
+	return ""
 }
 
 // dupOp: a second acknowledgement / timeout for an already settled packet.
@@ -739,6 +764,19 @@ func (s *Spec) Ops(st *explore.State) []explore.Op {
 			for _, k := range []string{"ackok", "ackerr", "timeout"} {
 				ops = append(ops, s.dupOp(f, k))
 			}
+		}
+		// governance switches the usdt pair off while a transfer is in flight, and on again
+		if s.Mode == "outbound" && m.Toggles < 2 && (m.Paused || len(m.Flights) > 0) {
+			ops = append(ops, explore.Op{Name: "TogglePair(usdt)", Run: func(c *explore.State) {
+				mm := c.Model.(*Model)
+				r := s.w.Deliver(c.Ctx, &erc20types.MsgToggleTokenConversion{Authority: world.GovAuthority(), Token: "usdt"})
+				c.Accepted = r.OK()
+				c.Outcome = map[bool]string{true: "ok", false: "rejected"}[r.OK()]
+				if r.OK() {
+					mm.Toggles++
+					mm.Paused = !mm.Paused
+				}
+			}})
 		}
 		if m.Advs < s.MaxAdv && len(m.Flights) > 0 {
 			ops = append(ops, explore.Op{Name: "Advance(13h)", Run: func(c *explore.State) {
